@@ -4,7 +4,10 @@ use futures::TryFutureExt;
 use serde::{Deserialize, Serialize};
 use std::{
     net::{IpAddr, SocketAddr},
-    sync::Arc,
+    sync::{
+        atomic::{AtomicBool, Ordering},
+        Arc,
+    },
 };
 use tokio::{
     net::{TcpListener, TcpStream},
@@ -149,6 +152,7 @@ impl SocksListener {
             .set_callback(Callback {
                 version: request.version,
                 listen_addr: None,
+                replied: AtomicBool::new(false),
             })
             .set_client_stream(socket);
 
@@ -200,6 +204,7 @@ impl SocksListener {
                     .set_callback(Callback {
                         version: request.version,
                         listen_addr: Some(listen_addr),
+                        replied: AtomicBool::new(false),
                     })
                     .set_idle_timeout(state.timeouts.udp);
                 ctx.enqueue(&queue).await?;
@@ -216,6 +221,8 @@ impl SocksListener {
 struct Callback {
     version: u8,
     listen_addr: Option<SocketAddr>,
+    // a UDP association keeps the control connection in the context after the success reply
+    replied: AtomicBool,
 }
 
 #[async_trait]
@@ -230,11 +237,15 @@ impl ContextCallback for Callback {
             cmd,
             target,
         };
+        self.replied.store(true, Ordering::Relaxed);
         if let Some(e) = resp.write_to(socket.unwrap()).await.err() {
             warn!("failed to send response: {}", e)
         }
     }
     async fn on_error(&self, ctx: &mut Context, _error: Error) {
+        if self.replied.load(Ordering::Relaxed) {
+            return;
+        }
         let version = self.version;
         let cmd = SOCKS_REPLY_GENERAL_FAILURE;
         let target = "0.0.0.0:0".parse().unwrap();
